@@ -58,6 +58,7 @@ type lifeCycle struct {
 	quiet         time.Duration
 	midLine       bool
 	mute          bool // the server stops reading for good once the cause has been started
+	echoes        int  // lines that background handlers answer with one line each
 	closers       int
 	closeRet      int
 	closeWant     int
@@ -77,6 +78,7 @@ type lifeW struct {
 	c *client.Conn
 
 	track, flood, ctxDial bool
+	relay                 bool // another goroutine fills the output queue while a dial is in progress
 	pingFreq              time.Duration
 	nick                  string
 	ncycles               int
@@ -326,6 +328,7 @@ func lifeRun(e *Env) {
 	w.track = g.Bool()
 	w.flood = g.Pct(60)
 	w.ctxDial = g.Bool()
+	w.relay = g.Pct(12)
 	w.pingFreq = []time.Duration{0, 0, 3 * time.Minute, 7 * time.Second, -time.Second}[g.Intn(5)]
 	w.nick = "me" + g.Str(lower, 1, 3)
 	if c07 {
@@ -389,6 +392,12 @@ func lifeRun(e *Env) {
 			return c == -1 || c == causeClose1 || c == causeCloseN || c == causeCancel || c == causeReset
 		}
 		cy.mute = g.Pct(15) && viaAPI(cy.cause) && viaAPI(cy.cause2)
+		// many background handlers that each answer one line: when the peer
+		// reads slowly or not at all they are all in the middle of sending when
+		// the connection ends, more of them than the output queue has room for
+		if c07 && (g.Pct(12) || (cy.mute && g.Pct(50))) {
+			cy.echoes = []int{40, 70, 130}[g.Intn(3)]
+		}
 		// the cause may begin the moment the dial completes, i.e. while Connect
 		// is still starting goroutines / dispatching REGISTER (a Close that early
 		// would legitimately be refused as "not connected", so only the causes
@@ -413,6 +422,7 @@ func lifeRun(e *Env) {
 		if g.Pct(25) {
 			l.Window = []int{64, 512, 4096}[g.Intn(3)]
 		}
+		l.CloseErr = g.Pct(25)
 		// the k-th socket operation fails; the range of k follows how finely the
 		// stream is cut so that late operations are reached too
 		maxReads := []int{12, 40, 700, 200}[l.ChunkMode]
@@ -642,6 +652,10 @@ func (w *lifeW) install() {
 			cy.closeRet++
 			return
 		}
+		if strings.HasPrefix(l.Text(), "echo") {
+			c.Privmsg("#life", "reply to "+l.Text())
+			return
+		}
 		if strings.HasPrefix(l.Text(), "busy") {
 			e.S.Count("probe.background-handler-busy-across-the-disconnect")
 			simrt.Sleep(cy.bgBusy)
@@ -694,6 +708,25 @@ func (w *lifeW) connect() {
 	}
 	regBefore := w.regExit
 	var err error
+	if w.relay && e.DialWait == nil {
+		// a busy relay that does not wait for the connection to be up: while the
+		// dial is in progress another goroutine hands over more lines than the
+		// output queue holds (whatever becomes of a line handed over while there
+		// is no connection is outside every claim; the connection's own life is not)
+		e.S.Count("fault.output-queue-filled-during-the-dial")
+		e.DialWait = func(c context.Context, k int) error {
+			handed := 0
+			e.S.Spawn(fmt.Sprintf("relay%d", n), func() {
+				for i := 0; i < 40; i++ {
+					w.c.Raw(fmt.Sprintf("PRIVMSG #relay :relayed traffic %d.%d", n, i))
+					handed++
+				}
+			})
+			simrt.BlockFor("life.dial", "the relay to fill the output queue", time.Second, func() bool { return handed >= 32 })
+			return nil
+		}
+		defer func() { e.DialWait = nil }()
+	}
 	if w.g.S.Choose(2) == 0 {
 		err = w.c.ConnectContext(ctx)
 	} else {
@@ -937,6 +970,14 @@ func (w *lifeW) server(cy *lifeCycle) {
 			e.S.Count("probe.inbound-backlog-exceeds-queue")
 		}
 	}
+	if cy.echoes > 0 {
+		e.S.Count("probe.many-background-handlers-sending-when-the-connection-ends")
+		var b strings.Builder
+		for k := 0; k < cy.echoes; k++ {
+			fmt.Fprintf(&b, ":other!o@h PRIVMSG %s :echo %d.%d\r\n", w.nick, cy.no, k)
+		}
+		l.Send(b.String())
+	}
 	if cy.midLine {
 		l.Send(":other!o@h PRIVMSG " + w.nick + " :this line is cut in the mi")
 	}
@@ -1063,7 +1104,7 @@ func (w *lifeW) runCycle(i int) {
 		return
 	}
 	e.S.Logf("cause begun for connection %d", cy.no)
-	lines := cy.outBurst + cy.bgBurst + cy.userBurst + cy.inBacklog + 12
+	lines := cy.outBurst + cy.bgBurst + cy.userBurst + cy.inBacklog + 2*cy.echoes + 12
 	notice := 10*time.Minute + time.Duration(lines)*7*time.Second + cy.slowHandler
 	if !simrt.BlockFor("life.main", "the client to notice the end of the connection", notice, func() bool { return w.causeObserved(cy) || cy.discSeen }) {
 		e.Violation("end-never-noticed", "connection %d: the server ended the link but the client did not read the EOF/error within %v (enough for every queued line at the slowest flood rate)\n%s", cy.no, notice, e.S.TaskDump())
